@@ -215,6 +215,10 @@ var funcSpecs = []funcSpec{
 	{rel: "cmd/age", name: "(rejectScryptIdentity).Unwrap", exits: []string{"main.errorWithHint"}},
 	{rel: "cmd/age", name: "encryptNotPass", abstract: []string{"main.parseRecipient", "main.parseRecipientsFile", "main.parseIdentitiesFile", "main.identitiesToRecipients", "plugin.NewIdentityWithoutData", "main.encrypt"}, exits: []string{"main.errorf", "main.errorWithHint"}, world: true,
 		opaque: map[string]string{"age.Recipient": "ρ", "plugin.Recipient": "ρ", "age.Identity": "ι", "plugin.Identity": "ι", "plugin.ClientUI": "υ", "io.Writer": "ζ", "tapeτ": "τ"}},
+	{rel: "cmd/age", name: "main", abstract: []string{"main.absPath", "flag.Arg", "os.Open", "term.IsTerminal", "main.bufferTerminalInput", "main.newLazyOpener", "io.Copy",
+		"main.decryptPass", "main.decryptNotPass", "main.encryptPass", "main.encryptNotPass"}, exits: []string{"main.errorf", "main.errorWithHint"}, world: true,
+		opaque: map[string]string{"os.File": "ζ", "io.Reader": "ζ", "io.Writer": "ζ", "io.WriteCloser": "ζ", "bytes.Buffer": "ζ", "tapeτ": "τ"},
+		startAt: "switch { case decryptFlag: if encryptFlag", startVars: []string{"outFlag", "decryptFlag", "encryptFlag", "passFlag", "armorFlag", "recipientFlags", "recipientsFileFlags", "identityFlags"}},
 	{rel: "", name: "aeadEncrypt", abstract: []string{"chacha20poly1305.New"}, opaque: map[string]string{"cipher.AEAD": "α"}},
 	{rel: "", name: "aeadDecrypt", abstract: []string{"chacha20poly1305.New"}, opaque: map[string]string{"cipher.AEAD": "α"}},
 	{rel: "agessh", name: "aeadEncrypt", abstract: []string{"chacha20poly1305.New"}, opaque: map[string]string{"cipher.AEAD": "α"}},
@@ -841,6 +845,9 @@ func (c *fctx) expr(e ast.Expr) string {
 	case *ast.UnaryExpr:
 		if x.Op == token.AND {
 			if cl, ok := ast.Unparen(x.X).(*ast.CompositeLit); ok {
+				if lt, ok := leanTypeOf(c.typeOf(cl)); ok && len([]rune(lt)) == 1 {
+					return c.expr(cl) // &T{} of a type that is opaque here: the abstract constant
+				}
 				if _, isStruct := c.typeOf(cl).Underlying().(*types.Struct); isStruct {
 					return c.structLit(cl)
 				}
@@ -1100,6 +1107,19 @@ func (c *fctx) binary(at ast.Node, X ast.Expr, op token.Token, Y ast.Expr, opT t
 				// said in the doc comment of the definition: a theorem that rests on this test needs the values that reach it
 				// to be nil exactly when they are empty (or never empty), as an explicit hypothesis
 				c.sites = append(c.sites, fmt.Sprintf("nil test of a slice (line %d): %s — a nil slice and an empty one are the same value in the translation", c.t.pr.line(at.Pos()), c.t.pr.text(c.fi.Pkg, X)))
+			}
+		}
+		// two values of a type that is opaque here compared with each other (`in == os.Stdin`): an abstract predicate
+		if !c.isNil(X) && !c.isNil(Y) {
+			if lt, ok := leanTypeOf(c.typeOf(X)); ok && len([]rune(lt)) == 1 {
+				if lt2, ok := leanTypeOf(c.typeOf(Y)); ok && lt2 == lt {
+					an := "same_" + lt
+					c.useAbstractName(an, "("+an+" : "+lt+" → "+lt+" → Bool)")
+					if op == token.EQL {
+						return "(" + an + " " + c.expr(X) + " " + c.expr(Y) + ")"
+					}
+					return "(!(" + an + " " + c.expr(X) + " " + c.expr(Y) + "))"
+				}
 			}
 		}
 		// a slice of structs compared with nil: emptiness (no equality test on the element type is needed)
@@ -1995,6 +2015,15 @@ func (c *fctx) isAbstract(o *types.Func) bool {
 }
 
 // absName: the Lean parameter that stands for an abstract callee
+// defPrefix: the prefix of the Lean names of a package's translated functions — the package name, except that the second
+// `package main` of the module (cmd/age-keygen) is told apart from the first (cmd/age)
+func defPrefix(p *Pkg) string {
+	if p.Name == "main" && p.Rel == "cmd/age-keygen" {
+		return "keygen"
+	}
+	return leanIdent(p.Name)
+}
+
 func absName(o *types.Func) string { return leanIdent(o.Pkg().Name()) + "_" + o.Name() }
 
 func (c *fctx) useAbstract(o *types.Func) {
@@ -2875,6 +2904,14 @@ func (c *fctx) assignTo(e *emitter, ind int, lhs ast.Expr, val string, define bo
 			c.fail(lhs, "assignment to %s", l.Name)
 		}
 		if v.Parent() == c.fi.Pkg.Types.Scope() {
+			if c.spec != nil && c.spec.world && c.tapeVar != nil {
+				// the variable belongs to the outside state: an abstract setter
+				an := "set_" + leanIdent(c.fi.Pkg.Name) + "_" + v.Name()
+				c.useAbstractName(an, fmt.Sprintf("(%s : %s → τ → Go.M τ)", an, c.leanType(lhs, v.Type())))
+				tp := c.nameOf(c.tapeVar)
+				e.add(ind, fmt.Sprintf("%s ← %s %s %s", tp, an, val, tp))
+				return
+			}
 			c.fail(lhs, "assignment to package-level variable %s", l.Name)
 		}
 		e.add(ind, c.nameOf(v)+" := "+val)
@@ -3946,9 +3983,9 @@ func loopHead(c *fctx, s ast.Stmt) string {
 
 // translate emits fi (once) and returns its Lean name.
 func (t *ftr) translate(fi *FuncInfo, from *fctx, at ast.Node) string {
-	name := leanIdent(fi.Pkg.Name) + "_" + fi.Decl.Name.Name
+	name := defPrefix(fi.Pkg) + "_" + fi.Decl.Name.Name
 	if fi.Decl.Recv != nil {
-		name = leanIdent(fi.Pkg.Name) + "_" + recvTypeNameOf(fi) + "_" + fi.Decl.Name.Name
+		name = defPrefix(fi.Pkg) + "_" + recvTypeNameOf(fi) + "_" + fi.Decl.Name.Name
 	}
 	if t.done[fi.Obj] {
 		return name
@@ -3957,7 +3994,7 @@ func (t *ftr) translate(fi *FuncInfo, from *fctx, at ast.Node) string {
 		from.fail(at, "recursive call of %s", fi.Qual())
 	}
 	if fi.Decl.Recv != nil {
-		name = leanIdent(fi.Pkg.Name) + "_" + recvTypeNameOf(fi) + "_" + fi.Decl.Name.Name
+		name = defPrefix(fi.Pkg) + "_" + recvTypeNameOf(fi) + "_" + fi.Decl.Name.Name
 	}
 	spec := t.specs[fi.Obj]
 	if spec == nil && from != nil {
